@@ -281,3 +281,19 @@ def check(ctx):
     # ---------------- (h) reward modulation block = the documented rule, as a decision tree
     from .. import reward_tail
     reward_tail.check(ctx, "C08.h", only=("MSTDP", "MSTDPET"))
+    # ---------------- (i) triplet factor: each pair term is scaled by (1 + slow trace of the *same* side, read one step back)
+    ntf = 0
+    for cname in ("TripletSTDP", "StableTripletSTDP"):
+        f = P.cls(cname).methods["forward"]
+        for x in ast.walk(f.node):
+            if isinstance(x, ast.BinOp) and isinstance(x.op, ast.Mult):
+                for fac, other in ((x.left, x.right), (x.right, x.left)):
+                    if isinstance(fac, ast.BinOp) and isinstance(fac.op, ast.Add) and isinstance(other, ast.Name) \
+                            and any(isinstance(n, ast.Constant) for n in (fac.left, fac.right)):
+                        ntf += 1
+                        got = terms.Builder(P, f, {}, inline_depth=0).t(fac)
+                        slow = [n for n in (fac.left, fac.right) if isinstance(n, ast.Name)]
+                        ok = len(slow) == 1 and nf.equal(got, nf.C(1) + nf.sym(slow[0].id)) and slow[0].id.split("_")[0] == other.id
+                        ctx.ob("C08.i", f"{cname}.forward: `{ast.unparse(x)[:40]}` scales the {other.id}-side trace by 1 + its slow trace", ok,
+                               "" if ok else "the triplet factor is not (1 + slow trace of the same side)", P.loc(f, x), x)
+    ctx.require("C08.i", "triplet factors written as constant + slow trace", ntf, 2)
